@@ -42,6 +42,9 @@ type c04MixedSet struct {
 	Tpl  *wire.Template `json:"tpl,omitempty"`
 	Recs []wire.Record  `json:"recs,omitempty"`
 	Pad  int            `json:"pad,omitempty"`
+	// Join: the template record goes into the template set the previous entry opened (when that was an
+	// announcement of the same kind, plain or options) instead of a set of its own
+	Join bool `json:"join,omitempty"`
 }
 
 type c04Case struct {
@@ -219,7 +222,7 @@ func genC04(t *rapid.T, proto string, env *wire.GenEnv) c04Case {
 		addSlot(p.B)
 	}
 	nexp := rapid.IntRange(1, 3).Draw(t, "nexp")
-	nid := rapid.IntRange(1, 2).Draw(t, "nid")
+	nid := rapid.IntRange(1, 3).Draw(t, "nid")
 	var ids []uint16
 	for i := 0; i < nid; i++ {
 		ids = append(ids, wire.GenTemplateID(t))
@@ -241,6 +244,34 @@ func genC04(t *rapid.T, proto string, env *wire.GenEnv) c04Case {
 		cur := model[slot]
 		kind := rapid.IntRange(0, 9).Draw(t, "opkind")
 		switch {
+		case kind == 7:
+			// one message whose template set(s) carry the template records of SEVERAL ids of this exporter, in a drawn
+			// order (so a shorter record may follow a longer one), followed by data for them
+			var same []int
+			for j := range c.Slots {
+				if string(c.Slots[j].Addr) == string(c.Slots[slot].Addr) {
+					same = append(same, j)
+				}
+			}
+			op := c04Op{Op: "mixed", Slot: slot}
+			for _, k := range rapid.Permutation(intRange(len(same))).Draw(t, "multiorder") {
+				j := same[k]
+				var tp wire.Template
+				switch {
+				case model[j] != nil && rapid.IntRange(0, 2).Draw(t, "multiredef") == 0:
+					tp = redefineSameLength(t, env, model[j])
+				default:
+					tp = env.GenTemplate(t, c.Slots[j].ID)
+				}
+				op.Sets = append(op.Sets, c04MixedSet{Slot: j, Tpl: &tp, Join: true})
+				model[j] = &tp
+			}
+			for k, nd := 0, rapid.IntRange(1, 3).Draw(t, "multidata"); k < nd; k++ {
+				j := same[rapid.IntRange(0, len(same)-1).Draw(t, "multidataslot")]
+				ds := env.GenDataSet(t, model[j], 3)
+				op.Sets = append(op.Sets, c04MixedSet{Slot: j, Recs: ds.Recs, Pad: ds.Pad})
+			}
+			c.Ops = append(c.Ops, op)
 		case kind == 8:
 			// one message: data / re-announcement / data ... for the slots of this exporter
 			var same []int
@@ -266,7 +297,7 @@ func genC04(t *rapid.T, proto string, env *wire.GenEnv) c04Case {
 					} else {
 						tp = env.GenTemplate(t, c.Slots[j].ID)
 					}
-					op.Sets = append(op.Sets, c04MixedSet{Slot: j, Tpl: &tp})
+					op.Sets = append(op.Sets, c04MixedSet{Slot: j, Tpl: &tp, Join: rapid.Bool().Draw(t, "mixedjoin")})
 					local[j] = &tp
 				} else {
 					ds := env.GenDataSet(t, local[j], 3)
@@ -383,6 +414,7 @@ func runC04x(c *c04Case) (v verdict, sig string, err error, cache *flowCache, mo
 	reannounced := map[int]bool{}
 	dataAfterRe := false
 	inMsgRe := false // data, re-announcement, data of one id inside one message
+	multiTplSet := false
 	seq := uint32(1)
 	hdr := func() wire.Msg {
 		seq++
@@ -442,7 +474,12 @@ func runC04x(c *c04Case) (v verdict, sig string, err error, cache *flowCache, mo
 					if ms.Tpl.Options {
 						kind = "opt"
 					}
-					m.Sets = append(m.Sets, wire.Set{Kind: kind, Tpls: []wire.Template{*ms.Tpl}})
+					if n := len(m.Sets); ms.Join && n > 0 && m.Sets[n-1].Kind == kind {
+						m.Sets[n-1].Tpls = append(m.Sets[n-1].Tpls, *ms.Tpl)
+						multiTplSet = true
+					} else {
+						m.Sets = append(m.Sets, wire.Set{Kind: kind, Tpls: []wire.Template{*ms.Tpl}})
+					}
 					if model[ms.Slot] != nil {
 						reannounced[ms.Slot] = true
 					}
@@ -579,6 +616,7 @@ func runC04x(c *c04Case) (v verdict, sig string, err error, cache *flowCache, mo
 	v.label(shard, "same-shard-pair-in-use")
 	v.label(dataAfterRe, "data-after-reannouncement")
 	v.label(inMsgRe, "data-reannounce-data-in-one-message")
+	v.label(multiTplSet, "several-template-records-in-one-set")
 	v.label(sharedID, "one-id-different-definitions")
 	for _, op := range c.Ops {
 		v.label(op.Op == "unknown", "unknown-data")
